@@ -10,7 +10,7 @@ LEVEL_TEXT = ("Deductive: Parser.parse against the record invariant of the state
               "sidecar contract (table obligation) - a new loop without one is reported.  Bounded: every registered function x arity x typed "
               "pool, token soups, raising/returning callbacks, under a line budget.")
 TRUSTED = ['PLY and re terminate; one builtin call takes bounded time', 'BaseExceptions that are not Exceptions and a host __str__ that raises are outside the contract']
-CONTRACTS = ['from_message', 'from_message_closed', 'Parser_throw_error', 't_error', 'p_error', 'Parser_parse', 'GrammarParser_parse',
+CONTRACTS = ['from_message', 'from_message_of_exception', 'from_message_closed', 'Parser_throw_error', 't_error', 'p_error', 'Parser_parse', 'GrammarParser_parse',
              'BASE', 'column_index_to_label', 'SUBSTITUTE']
 
 # loops / recursion that are known and how their termination is decided
